@@ -1,8 +1,8 @@
 """C09 — collection queries return exactly the specified members, self-consistently."""
 import itertools
 
-WARM_TWINS = {"quick": 0.02, "thorough": 0.05}      # engine: call-history twins (harness/warm.py)
-DECOY_TWINS = {"quick": 0.02, "thorough": 0.05}     # engine: decoy twins (harness/decoy.py)
+WARM_TWINS = {"quick": 0.004, "thorough": 0.02}      # engine: call-history twins (harness/warm.py)
+DECOY_TWINS = {"quick": 0.004, "thorough": 0.02}     # engine: decoy twins (harness/decoy.py)
 ID = "C09"
 LEAN_MODULE = "BioCantor.Props.C09"
 DESIGN_REF = "4/C09"
